@@ -20,7 +20,20 @@ def tiers(quick_checks, thorough_checks, quick_budget=25, thorough_budget=420, c
         "thorough": {"workers": 16, "checks": thorough_checks, "budget_s": thorough_budget, "chunk": chunk},
     }
 
+STORES = {
+    "MemoryStore": "real (instrumented ebu code)",
+    "SQLite store": "real stores/sqlite code over the real modernc.org/sqlite engine on a real file in a per-run temp dir (runs as atomic steps; its internals are not scheduled)",
+    "durable-streams store": "real stores/durablestream client code + real durable-streams-go protocol handler and in-memory storage, connected by an in-process http.RoundTripper (no sockets; the RoundTripper injects lost requests / lost responses)",
+}
+
 PROPS = {
+    "C10": {
+        "tiers": tiers(1500, 40000, quick_budget=40),
+        "rule": "rapid-generated operation sequence (1-30, sometimes 30-120 so the log passes 10 and 100 entries) of Append / Read(o,n) / ReadStream(o) with early stop / SaveOffset / LoadOffset against one of MemoryStore, SQLite (stream batch 0/1/2/3/100) or durable-streams (chunk default/64/256 bytes), resume offsets drawn only from offsets the same store returned (append results, event offsets, next offsets) or oldest, limits from {-1,0,1,2,3,7,1000}, events with arbitrary type strings / JSON documents / timestamps (years 1-9999, ns, six zone shapes); compared call by call with a single-copy log model; 20% of runs add 2-4 concurrent client tasks checked with porcupine; durable-streams runs may lose requests/responses. Non-trivial: >2 operations; distinct = (scenario shape, schedule trace hash, history hash).",
+        "components": dict(REAL_BUS, **STORES),
+        "assumptions": COMMON_ASSUME + ["type strings are valid UTF-8 and offsets passed in were returned by the same store (or oldest)", "SQLite disk errors (ENOSPC/EIO) are exercised by the C14 engine, not here"],
+        "expect_probes": ["log-past-10-entries", "log-past-100-entries", "porcupine-ok"],
+    },
     "C08": {
         "tiers": tiers(3000, 120000),
         "rule": "rapid-generated scenario: 0-6 registrations on one type (plain/context-aware, sync/Async, Sequential, filters; each may cancel the publish context on its k-th invocation), 1-5 consecutive publishes whose context is absent / live cancellable / already cancelled / a 5 ms deadline that expires inside a handler's simulated sleep, every subset of the four publish hooks (installed by option or by setter), optional Observability and interface-typed publish, + choice tape for async tasks. Fault = context cancellation (before the call, by a handler, by deadline). Every run is non-trivial; distinct = (scenario shape, schedule trace hash, history hash).",
